@@ -6,7 +6,8 @@ Decided here:
           D = compute_valid_domain_for_var(graph, <raw set registered for d>, x), the quantifier itself on the outer
           graph, forall's inner complement in the restricted universe; when unit(graph) & D is empty the value is
           empty for bind / exists and unit(graph) for forall; the emptiness test is made on exactly the set that
-          becomes the new unit set (so restrict_stg_unit_bdd's unwrap cannot panic);
+          becomes the new unit set (so restrict_stg_unit_bdd's unwrap cannot panic); the registered domain sets are only read
+          by eval_node (never taken out of the context, replaced or cleared), so nested and later uses of a label see the set;
   C02-R2  graph-relative leaves: every return path of eval_node (atoms, wild-card / cache hits, both shortcuts, every
           operator) is bounded by the unit set of the *current* graph - inside a restricted scope that is the
           restricted graph, which is what makes `!{x} in %A%: phi` equal `!{x}: %A% & phi` for bodies that do not
@@ -52,7 +53,16 @@ def run(prog, rep):
     rep.functions.add(en.fn.qual)
     for key, shape, alts, kind, op in sem.domain_shapes():
         sem.check_shape(rep, "C02-R1", en, shape, alts, key, detail=f"{op} with domain")
-    rep.floor("C02-R1", 3)
+    # the registered domain sets are only read during evaluation: a quantifier nested inside another one with the same domain label
+    # (or a later formula of the batch) must find the set where the context constructor put it
+    dsites = cacheproto.ctx_sites(en, "domain_raw_sets")
+    writes = [x for x in dsites if (x.kind == "mcall" and x.name not in ("get", "contains_key", "index", "iter", "len", "is_empty", "keys", "values"))
+              or x.kind in ("assign", "assignop")]
+    rep.check(bool(dsites) and not writes, "C02-R1", "eval_node/domain-sets-read-only", f"{en.fn.file}:{(writes[0].line() if writes else en.fn.line)}",
+              f"{len(dsites)} look-ups of the registered domain sets, no modification",
+              f"eval_node modifies the registered domain sets (`{writes[0].name if writes else ''}`): while the entry is away, a nested quantifier over the "
+              "same domain does not find it" if writes else "no look-up of the registered domain sets was found in eval_node")
+    rep.floor("C02-R1", 4)
     g = E.G
     for key, shape in c03.all_shapes():
         rs = [r for r in en.specialise(shape) if r["term"] != terms.NEVER]
